@@ -12,8 +12,8 @@ import time
 VERIF = os.path.dirname(os.path.dirname(os.path.abspath(__file__)))
 REPO = os.environ.get('VERIF_REPO', '/repo')
 WORK = os.path.join(VERIF, '_work')
-LEAN = os.path.join(VERIF, 'lean')
-EVID = os.path.join(VERIF, 'evidence')
+LEAN = os.environ.get('VERIF_LEAN') or os.path.join(VERIF, 'lean')  # VERIF_LEAN: development only (mutation runs on a copy)
+EVID = os.environ.get('VERIF_EVIDENCE_DIR') or os.path.join(VERIF, 'evidence')  # override: development only
 REPLAYS = os.path.join(VERIF, 'replays')
 NPROC = os.cpu_count() or 4
 
